@@ -88,6 +88,9 @@ namespace igris
 
         void init(void *zone, size_t size, size_t elsize)
         {
+            // every free cell holds the free-list link: with a smaller
+            // element size the links overlap and the last one leaves the zone
+            assert(elsize >= sizeof(struct slist_head));
             _zone = zone;
             _size = size;
             _elemsz = elsize;
